@@ -9,6 +9,8 @@ CONSTANTS
   NthArgs = {0, 1, 2, 9}
   NthBudget = 2
   NthMaxCells = 6
+  CloneBudget = 1
+  AB_CloneResets = FALSE
   AB_NthUnclamped = FALSE
   AB_View0Dim = FALSE
   ShapeSet <- MCShapeSet
